@@ -196,15 +196,32 @@ func (h *c15Hist) journal(since int64, page int64) {
 			return
 		}
 		if len(evs) == 0 {
-			// progress: an empty page is the end of the journal only if nothing newer exists
-			for _, id := range h.m.sortedIDs() {
-				if e := h.m.ents[id]; e.Ver > from {
-					h.viol("journal/no-progress", fmt.Sprintf("journal page requested from version %d (limit %d) is empty although entity %d has version %d (%d bytes of data): a paging reader never gets past this point", from, page, e.ID, e.Ver, len(e.Data)), map[string]any{"since": since, "page": page, "stuck_at": from})
-					h.w.Case(true, fmt.Sprintf("VIOL|journal-no-progress|big%v", len(e.Data) > 4096))
-					return
+			// progress: an empty page is the end of the journal only if nothing newer exists.  Judged
+			// only when persistent: the same request repeated >= 5 times over >= 2 s keeps returning
+			// nothing while the table verifiably holds a larger version.
+			exists, newer := mdkNewerInTable(h.db, from)
+			if !exists {
+				break
+			}
+			var diag []string
+			recovered := false
+			start := time.Now()
+			for try := 1; (try <= 5 || time.Since(start) < 2*time.Second) && try <= 60; try++ {
+				time.Sleep(450 * time.Millisecond)
+				again, err := h.db.JournalEvents(ctx, from, page)
+				diag = append(diag, fmt.Sprintf("repeat %d after %d ms: %d events, err=%v; in-package journal select: %s", try, time.Since(start).Milliseconds(), len(again), err, mdkJournalProbe(h.db, from)))
+				if err == nil && len(again) > 0 {
+					evs, recovered = again, true
+					break
 				}
 			}
-			break
+			if !recovered {
+				h.viol("journal/no-progress", fmt.Sprintf("journal page requested from version %d (limit %d) is empty, and stays empty over %d repeats, although the table holds %s: a paging reader never gets past this point", from, page, len(diag), newer), map[string]any{"since": since, "page": page, "stuck_at": from, "repeats": diag})
+				h.w.Case(true, "VIOL|journal-no-progress")
+				return
+			}
+			h.r.NotJudged("transient_empty_journal_page", 1)
+			h.r.T.Logf("C15 hist history %d: transient empty journal page from version %d (limit %d), table held %s; %v", h.idx, from, page, newer, diag)
 		}
 		if int64(len(evs)) > page {
 			h.viol("journal/page-too-long", fmt.Sprintf("page of %d events for limit %d", len(evs), page), nil)
@@ -436,6 +453,7 @@ func TestVerifC15Hist(t *testing.T) {
 	r := verifkit.Start(t, "C15", "hist")
 	defer r.Finish()
 	mdkAssumeSQLite(r)
+	r.Assume("an empty journal page while the table holds a larger version is judged only when persistent (the same request repeated >= 5 times over >= 2 s of real time stays empty); one that recovers is counted NotJudged (transient_empty_journal_page) and logged with diagnostics")
 	r.SetRule("sequential histories of create / edit / rename / delete / undelete requests for metrics, groups, dashboards, namespaces, prom-configs and predefined (negative-id) entities over a pool of 5–9 colliding names, namespace prefixes (existing / unknown), stale / future / foreign versions, unknown ids, hostile names, and in 1 of 20 histories three entities whose JSON data is 0.9×, 1.0×+1 byte and 1.5× the journal page budget; journal pages from random versions, GetEntityVersioned, GetHistoryShort, reopen. One case = one judged answer or read-back. Non-trivial = answer of a request (accepted, or refused after at least one accepted request) / journal with ≥2 entries after at least one edit / history with ≥2 versions; distinct = (request class, type, predicted outcome+reason, observed class) resp. shape of the read-back.")
 	nHist := r.N(200, 2000)
 	nOps := r.N(60, 150)
